@@ -128,7 +128,7 @@ func c19ISGR(t *testing.T, run *vlib.Run, proto, pname string, pi, n int) {
 			got, err := c19Parse(raw)
 			if err != nil {
 				run.Eval()
-				run.Violation("value-equality", "C19|write=PUT|read="+read+"|response-not-valid-json", fmt.Sprintf("doc %s: %s returned %s: %v", d.ID, request, c19Trunc(string(raw), 300), err),
+				c19Violation(run, "value-equality", "C19|write=PUT|read="+read+"|response-not-valid-json", fmt.Sprintf("doc %s: %s returned %s: %v", d.ID, request, c19Trunc(string(raw), 300), err),
 					map[string]any{"case": d.CI, "doc_id": d.ID, "written_body": d.R1.Text, "read_request": request, "response": c19Trunc(string(raw), 6000)})
 				continue
 			}
